@@ -9,12 +9,12 @@
      RNode tag t d              t represents d in the D-Bus introspection format (an absent optional has NO attribute)
      wf_node d                  what the types guarantee: valid member / interface / property names, signatures that
                                 re-read from their own text (true of every parsed signature: property C06)
-     Known_C34 d                some optional of d is absent (node name, arg name, arg direction)
    All theorems are parametric in the signature codec (sigT, sig_parse, sig_show) and the three name validators;
    C34/Inst.v instantiates them with the C06 and C10 models, C34/Examples.v has concrete instances. *)
 From ZV Require Import Base.Bytes Base.Res C34.Model C34.Spec C34.Escape C34.Proofs C34.Examples.
 
-(* The property as stated, kept visible; REFUTED on this tree (C34_none_option_refuted). *)
+(* The property as stated.  It holds at full strength since fix commit 34e4ce52 (C34_roundtrip is exactly
+   this statement); before it, an absent optional was written as an empty attribute (former finding none_option). *)
 Definition C34_full_statement : Prop :=
   forall sigT sig_parse sig_show vm vi vp (d : node sigT),
     wf_node sigT sig_show sig_parse vm vi vp d ->
@@ -45,30 +45,34 @@ Theorem C34_reader_correct :
 Proof. exact reader_correct. Qed.
 Print Assumptions C34_reader_correct.
 
-(* --- the writer: its infoset represents d when no optional is absent --- *)
-Theorem C34_writer_conforms_partial :
-  forall sigT sig_show (d : node sigT) tag, node_none sigT d = false -> RNode sigT sig_show tag (t_node sigT sig_show tag d) d.
+(* --- the writer, full strength: its infoset represents d (an absent optional has no attribute) --- *)
+Theorem C34_writer_conforms :
+  forall sigT sig_show (d : node sigT) tag, RNode sigT sig_show tag (t_node sigT sig_show tag d) d.
 Proof. exact writer_conforms. Qed.
-Print Assumptions C34_writer_conforms_partial.
+Print Assumptions C34_writer_conforms.
 
-(* --- the round trip, on infosets and on text --- *)
-Theorem C34_roundtrip_partial :
+(* --- the round trip, full strength, on infosets and on text --- *)
+Theorem C34_roundtrip :
   forall sigT sig_parse sig_show vm vi vp (d : node sigT),
-    wf_node sigT sig_show sig_parse vm vi vp d -> ~ Known_C34 sigT d ->
+    wf_node sigT sig_show sig_parse vm vi vp d ->
     of_node sigT sig_parse vm vi vp (fun v => Ok v) (to_tree sigT sig_show d) = Ok d.
-Proof. exact roundtrip_partial. Qed.
-Print Assumptions C34_roundtrip_partial.
+Proof. exact roundtrip. Qed.
+Print Assumptions C34_roundtrip.
+
+Theorem C34_full_statement_holds : C34_full_statement.
+Proof. exact roundtrip. Qed.
+Print Assumptions C34_full_statement_holds.
 
 (* quick-xml's tokenizer by contract: it reads back, values still escaped, what the raw printer wrote for a tree
    with alphanumeric names, quote-free values and no text *)
-Theorem C34_text_roundtrip_partial :
+Theorem C34_text_roundtrip :
   forall sigT sig_parse sig_show vm vi vp (tokenize : bytes -> option xml),
     (forall r, printable r = true -> tokenize (print_raw r) = Some r) ->
     forall d : node sigT,
-      wf_node sigT sig_show sig_parse vm vi vp d -> ~ Known_C34 sigT d ->
+      wf_node sigT sig_show sig_parse vm vi vp d ->
       from_str sigT sig_parse vm vi vp tokenize (to_writer sigT sig_show d) = Ok d.
-Proof. exact text_roundtrip_partial. Qed.
-Print Assumptions C34_text_roundtrip_partial.
+Proof. exact text_roundtrip. Qed.
+Print Assumptions C34_text_roundtrip.
 
 (* every document the reader returns is well formed, given C06's "a parsed signature re-reads from its text" *)
 Theorem C34_parsed_documents_wf :
@@ -78,26 +82,12 @@ Theorem C34_parsed_documents_wf :
 Proof. exact parsed_wf. Qed.
 Print Assumptions C34_parsed_documents_wf.
 
-(* --- known finding: an absent optional is written as an empty attribute --- *)
-Theorem C34_none_option_refuted :
+(* hence: whatever the reader accepts survives writing and re-reading *)
+Theorem C34_reread_of_parsed :
   forall sigT sig_parse sig_show vm vi vp,
-    exists d : node sigT, wf_node sigT sig_show sig_parse vm vi vp d /\
-      of_node sigT sig_parse vm vi vp (fun v => Ok v) (to_tree sigT sig_show d) <> Ok d.
-Proof. exact none_option_refuted. Qed.
-Print Assumptions C34_none_option_refuted.
-
-Theorem C34_none_name_witness :
-  forall sigT sig_parse sig_show vm vi vp,
-    wf_node sigT sig_show sig_parse vm vi vp (d_noname sigT) /\
-    to_tree sigT sig_show (d_noname sigT) = Elem (B "Node") [(B "name", [])] [] /\
-    of_node sigT sig_parse vm vi vp (fun v => Ok v) (to_tree sigT sig_show (d_noname sigT)) = Ok (Node sigT (Some []) [] []) /\
-    Known_C34 sigT (d_noname sigT).
-Proof. exact none_name_witness. Qed.
-Print Assumptions C34_none_name_witness.
-
-(* a signal argument without direction: zbus_xml rejects the document it has just written *)
-Theorem C34_none_direction_rejected :
-  forall sigT sig_parse sig_show vm vi vp m s,
-    of_node sigT sig_parse vm vi vp (fun v => Ok v) (to_tree sigT sig_show (d_nodir sigT m s)) = Err EXml.
-Proof. exact none_direction_rejected. Qed.
-Print Assumptions C34_none_direction_rejected.
+    (forall b s, sig_parse b = Some s -> sig_parse (sig_show s) = Some s) ->
+    forall t (d : node sigT),
+      of_node sigT sig_parse vm vi vp (fun v => Ok v) t = Ok d ->
+      of_node sigT sig_parse vm vi vp (fun v => Ok v) (to_tree sigT sig_show d) = Ok d.
+Proof. exact reread_of_parsed. Qed.
+Print Assumptions C34_reread_of_parsed.
